@@ -129,6 +129,18 @@ def fresh_after_change(c):
     e["args"]["res"] = "Fresh"
 demo("Trace_Caches: hull answers after a change", "Trace_Caches", cev, fresh_after_change)
 
+# ---- Trace_InsertTxn (scripts generated by TLC from InsertTxn.tla)
+scripts = os.path.join(W, "scripts.ndjson")
+open(scripts, "w").write("\n".join(json.dumps(s) for s in [
+    {"cfg": {"cells": True, "check": "EveryN", "maxPert": 1, "n": 1, "repair": "Never", "snapUsesNext": True}, "count0": 3, "choices": ["fR", "ok", "fail"]},
+    {"cfg": {"cells": True, "check": "EndOnly", "maxPert": 1, "n": 1, "repair": "Every", "snapUsesNext": True}, "count0": 4, "choices": ["ok", "ok"]},
+]) + "\n")
+subprocess.run([VD, "inserttxn", "--hist", scripts, "--part", "0/1", "--out", os.path.join(W, "t.ndjson")], check=True, stdout=subprocess.DEVNULL)
+tev = [json.loads(l) for l in open(os.path.join(W, "t.ndjson"))]
+demo("Trace_InsertTxn: failed call left a change", "Trace_InsertTxn", [tev[0]], lambda c: c[0]["res"].__setitem__("changed", True))
+demo("Trace_InsertTxn: count not advanced on commit", "Trace_InsertTxn", [tev[1]], lambda c: c[0]["res"].__setitem__("dcount", 0))
+demo("Trace_InsertTxn: an attempt not observed", "Trace_InsertTxn", [tev[0]], lambda c: c[0]["res"].__setitem__("sites", c[0]["res"]["sites"][:2]))
+
 bad = [r for r in results if not (r[1] and r[2])]
 print("selftest:", "OK" if not bad else "FAILED %s" % bad)
 sys.exit(0 if not bad else 1)
